@@ -17,6 +17,8 @@ try:
         meta = json.load(open(d + "/meta.json"))
         checks = list(meta["caught_by"].keys())
         harmless = set(meta.get("harmless_alone", []))
+        notcaught = set(meta.get("not_caught_alone", []))  # documented limits of the technique (see meta.json / DESIGN.md 9.6)
+        notcaught_by = meta.get("not_caught_alone_by", {})
         patches = [d + "/patch.diff"] + sorted(p for p in glob.glob(d + "/patch-*-only.diff"))
         for p in patches:
             sh("git", "-C", WT, "checkout", "--", ".")
@@ -26,13 +28,21 @@ try:
                 rows.append((name, os.path.basename(p), "-", "PATCH DOES NOT APPLY", ""))
                 continue
             for c in checks:
+                only = meta.get("only_patches", {}).get(c)
+                if only is not None and os.path.basename(p) not in only:
+                    continue
                 e2 = dict(env, VERIF_REPO=WT)
                 r = subprocess.run([V + "/check", c, "quick"], stdout=subprocess.PIPE, stderr=subprocess.STDOUT, text=True, env=e2, cwd=V)
                 sigs = sorted(set(re.findall(r"signature=(\S+)", r.stdout)))
-                exp = "quiet (harmless alone)" if os.path.basename(p) in harmless else "caught"
+                bn = os.path.basename(p)
+                exp = "caught"
+                if bn in harmless:
+                    exp = "quiet (harmless alone)"
+                elif bn in notcaught or bn in notcaught_by.get(c, []):
+                    exp = "quiet (documented: not decidable by this check)"
                 got = "caught" if r.returncode == 1 and sigs else ("quiet" if r.returncode == 0 else "exit %d" % r.returncode)
                 ok = (got == "caught") == (exp == "caught")
-                rows.append((name, os.path.basename(p), c, got + ("" if ok else "  <-- UNEXPECTED"), ", ".join(sigs)))
+                rows.append((name, os.path.basename(p), c, (got if exp == "caught" or not ok else exp) + ("" if ok else "  <-- UNEXPECTED"), ", ".join(sigs)))
                 print(rows[-1], flush=True)
 finally:
     sh("git", "-C", "/repo", "worktree", "remove", "--force", WT)
